@@ -34,7 +34,7 @@ ASSUMPTIONS = ['continuation canonicaliser validated differentially on every 16t
 
 
 def BOUNDS(tier):
-    return {'transactions': 2, 'rcpts': 2, 'bodies': 7, 'size_limit': SIZE_LIMIT,
+    return {'transactions': 2, 'rcpts': 2, 'bodies': 8, 'size_limit': SIZE_LIMIT,
             'segmentations': 'all for single-transaction streams + burst/byte/line/1-cut for the rest' if tier == 'quick' else 'all'}
 
 
@@ -46,6 +46,7 @@ BODIES = {
     'x+dot': b'x\r\n.\r\n.\r\n',
     'big': b'A' * 20 + b'\r\nRCPT TO:<evil>\r\n' + b'B' * 20 + b'\r\n.\r\n',
     'blank-first': b'\r\n\r\nx\r\n \r\n.\r\n',
+    'big-dot': b'A' * 20 + b'\r\n' + b'B' * 18 + b'.\r\nMAIL FROM:<evil@x>\r\n.end\r\n.\r\n',
 }
 
 
